@@ -11,7 +11,7 @@ from __future__ import annotations
 import ast
 
 from .. import flow
-from ..astutil import polarity_atoms, body_walk, call_name, call_recv, calls_in, kwarg, names_in, norm, strip_await, walk_no_nested
+from ..astutil import atom_polarity, polarity_atoms, body_walk, call_name, call_recv, calls_in, kwarg, names_in, norm, strip_await, walk_no_nested
 from ..loader import AnalysisError
 from ..pattern import _canon_if
 from .common import in_lock, parmap, where
@@ -677,6 +677,25 @@ def r4_11(ctx):
         ctx.ok("R4.11", where(fi), "a keyword containing ':' is refused (or escaped) before it can become an MH sequence name")
     else:
         ctx.bad("R4.11", fi.module, fi.qual, "flag keyword may contain ':'", "the parser hands on a flag keyword that contains `:` (an atom character) and nothing refuses or escapes it before it becomes the name of an MH sequence: `STORE 1 +FLAGS (a:b)` writes the line `a:b: 1` to .mh_sequences, which the MH reader rejects - every later command that reads the folder's flags fails, for every session", fi.node.lineno)
+    # ... and the MH library writes .mh_sequences as ASCII: a keyword with a character above 0x7f (the pattern admits them, the
+    # command is decoded as latin-1) enters the in-memory sequences, the write raises UnicodeEncodeError, and every later
+    # rewrite of that mailbox's sequences fails the same way.  ATOM-CHAR has no 8-bit characters: the parser refuses them.
+    admits8 = rl.can_match_char(src, "\xe9")
+    guarded8 = False
+    for n in body_walk(fi.node):
+        if isinstance(n, ast.If) and any(isinstance(x, ast.Raise) for st in n.body for x in ast.walk(st)):
+            t = norm(n.test)
+            if "isascii()" in t and atom_polarity(n.test, lambda x: isinstance(x, ast.Call) and call_name(x) == "isascii") is False:
+                guarded8 = True
+        if isinstance(n, ast.Try) and any(call_name(c) == "encode" and c.args and isinstance(c.args[0], ast.Constant) and str(c.args[0].value).lower().replace("-", "") in ("ascii", "usascii") for st in n.body for c in calls_in(st)):
+            if any(any(isinstance(x, ast.Raise) for x in ast.walk(h)) for h in n.handlers):
+                guarded8 = True
+    if not admits8:
+        ctx.ok("R4.11", where(fi), "the keyword pattern does not admit 8-bit characters")
+    elif guarded8:
+        ctx.ok("R4.11", where(fi), "a keyword with 8-bit characters is refused before it can become an MH sequence name")
+    else:
+        ctx.bad("R4.11", fi.module, fi.qual, "flag keyword may contain 8-bit characters", "the parser hands on a flag keyword with characters above 0x7f and nothing refuses it before it becomes the name of an MH sequence: `STORE 2 +FLAGS (caf\\xe9)` changes the in-memory flags, the ASCII write of .mh_sequences raises, and from then on every command that rewrites that mailbox's flags fails for every session", fi.node.lineno)
 
 
 def run(ctx):
